@@ -4,12 +4,12 @@ import (
 	"fmt"
 	"go/ast"
 	"go/constant"
-	"go/token"
 	"go/types"
 	"golang.org/x/tools/go/packages"
 	"sort"
 	"strings"
 
+	"golang.org/x/tools/go/ssa"
 	"golang.org/x/tools/go/types/typeutil"
 
 	"verif/sa/internal/core"
@@ -387,74 +387,36 @@ func checkC19(p *core.Program, r *core.Report) {
 		} else {
 			r.OK("O19.3", "main.cmd:"+c.Name+": --mode has no valid default", p.Pos(c.Lit.Pos()), "no default value among the accepted modes")
 		}
-		mv, at := modeVar(c.Action)
 		cn := "main.cmd:" + c.Name + ": invalid-mode paths"
-		if mv == nil {
-			r.Undecided("O19.3", cn, p.Pos(c.Lit.Pos()), "command declares a --mode flag but no local variable is assigned from context.String(\"mode\"): idiom not recognised")
+		act := actionSSA(p, c)
+		if act == nil {
+			r.Undecided("O19.3", cn, p.Pos(c.Lit.Pos()), "cannot find the SSA function of the command's action")
 			continue
 		}
-		g := flow.NewGraph(c.Action)
-		g.NonNilError = func(fn *types.Func) bool {
-			if u, ok := ix.decls[fn.Origin()]; ok {
-				if fd, ok := u.Node.(*ast.FuncDecl); ok {
-					return flow.AlwaysReturnsFreshError(u.Pkg.TypesInfo, fd)
-				}
-			}
-			return false
-		}
-		loc, ok := g.Locate(at)
-		if !ok {
-			r.Undecided("O19.3", cn, p.Pos(at.Pos()), "mode assignment not found in the control-flow graph")
+		mw := runModeFlow(p, act, accepted)
+		if mw.overflow {
+			r.Undecided("O19.3", cn, p.Pos(act.Pos()), "path enumeration of the action exceeded its budget")
 			continue
 		}
-		info := c.Pkg.TypesInfo
-		atom := func(e ast.Expr) flow.Tri {
-			b, ok := ast.Unparen(e).(*ast.BinaryExpr)
-			if !ok || (b.Op != token.EQL && b.Op != token.NEQ) {
-				return flow.Unknown
-			}
-			isMode := func(x ast.Expr) bool {
-				id, ok := ast.Unparen(x).(*ast.Ident)
-				return ok && info.ObjectOf(id) == mv
-			}
-			var other ast.Expr
-			switch {
-			case isMode(b.X):
-				other = b.Y
-			case isMode(b.Y):
-				other = b.X
-			default:
-				return flow.Unknown
-			}
-			s, ok := constString(info, other)
-			if !ok || !accepted[s] {
-				return flow.Unknown
-			}
-			if b.Op == token.EQL {
-				return flow.False
-			}
-			return flow.True
+		ends := mw.Ends()
+		if len(ends) == 0 {
+			r.Undecided("O19.3", cn, p.Pos(c.Lit.Pos()), "command declares a --mode flag but no path of its action reads context.String(\"mode\"): idiom not recognised")
+			continue
 		}
-		rets, fallsOff, _ := g.ReturnsUnderFact(flow.Loc{B: loc.B, I: loc.I + 1}, atom)
 		bad := []string{}
 		nfail := 0
-		for _, rt := range rets {
-			if rt.Class == "fail" {
+		for _, e := range ends {
+			if e.Class == "fail" {
 				nfail++
 			} else {
-				bad = append(bad, fmt.Sprintf("%s return at %s", rt.Class, p.Pos(rt.Ret.Pos())))
+				bad = append(bad, fmt.Sprintf("%s return at %s", e.Class, p.Pos(e.Pos)))
 			}
 		}
-		if fallsOff {
-			bad = append(bad, "function end reachable")
-		}
 		sort.Strings(bad)
-		if len(bad) == 0 && nfail > 0 {
-			r.OK("O19.3", cn, p.Pos(at.Pos()), "all %d returns reachable with an unknown mode carry a certainly non-nil error", nfail)
-		} else if len(bad) == 0 {
-			r.Violation("O19.3", cn, p.Pos(at.Pos()), "no failing return is reachable with an unknown mode")
+		if len(bad) == 0 {
+			r.OK("O19.3", cn, p.Pos(act.Pos()), "all %d ends reachable with an unknown mode carry a certainly non-nil error (paths followed into %d helper(s))", nfail, len(mw.inlined))
 		} else {
-			r.Violation("O19.3", cn, p.Pos(at.Pos()), "with mode outside {insertion, deletion} the action can end without a failing status: %s", strings.Join(bad, "; "))
+			r.Violation("O19.3", cn, p.Pos(act.Pos()), "with mode outside {insertion, deletion} the action can end without a failing status: %s", strings.Join(bad, "; "))
 		}
 	}
 	r.Floor("mode-taking commands", 4)
@@ -557,76 +519,74 @@ func checkProveStdout(p *core.Program, r *core.Report, ix *funcIndex, prove cliC
 	} else {
 		r.Violation("O19.5", "main.cmd:prove: stdout write on paths", p.Pos(site.c.Pos()), "%s", strings.Join(bad, "; "))
 	}
-	// printed value: var assigned from json.Marshal(x) with x mentioning a var assigned only from prover results
-	body := unitBody(prove.Action)
-	assigns := func(v *types.Var) []ast.Expr {
-		var rhs []ast.Expr
-		ast.Inspect(body, func(n ast.Node) bool {
-			as, ok := n.(*ast.AssignStmt)
-			if !ok {
-				return true
-			}
-			for i, l := range as.Lhs {
-				if id, ok := ast.Unparen(l).(*ast.Ident); ok && info.ObjectOf(id) == v {
-					if len(as.Rhs) == len(as.Lhs) {
-						rhs = append(rhs, as.Rhs[i])
-					} else {
-						rhs = append(rhs, as.Rhs[0])
-					}
-				}
-			}
-			return true
-		})
-		return rhs
-	}
-	varsIn := func(e ast.Node) []*types.Var {
-		var vs []*types.Var
-		ast.Inspect(e, func(n ast.Node) bool {
-			if id, ok := n.(*ast.Ident); ok {
-				if v, ok := info.Uses[id].(*types.Var); ok && !v.IsField() && v.Pkg() == prove.Pkg.Types && v.Parent() != prove.Pkg.Types.Scope() {
-					vs = append(vs, v)
-				}
-			}
-			return true
-		})
-		return vs
-	}
+	// printed value, on SSA: every origin of what is printed is the byte result of json.Marshal, and every origin of what
+	// that call marshals is the result of a proving-system method (through helpers, generic or not)
 	okChain := false
 	detail := "printed value does not derive from json.Marshal of the prover's result"
-	for _, a := range site.c.Args {
-		for _, v := range varsIn(a) {
-			for _, rhs := range assigns(v) {
-				call, ok := ast.Unparen(rhs).(*ast.CallExpr)
-				if !ok {
+	act := actionSSA(p, prove)
+	var wcall *ssa.Call
+	if act != nil {
+		wcall = callAt(act, site.c.Lparen)
+	}
+	if wcall == nil {
+		detail = "cannot locate the stdout write in the action's SSA"
+	} else {
+		isPSMethod := func(f *ssa.Function) bool {
+			if o := f.Origin(); o != nil {
+				f = o
+			}
+			return ps != nil && f.Signature.Recv() != nil && namedOf(f.Signature.Recv().Type()) == ps
+		}
+		var marshals []*ssa.Call
+		okPrinted := true
+		nArgs := 0
+		for _, a := range wcall.Common().Args {
+			if isOsVarSSA(a) {
+				continue
+			}
+			for _, o := range ssaOrigins(a, nil) {
+				nArgs++
+				c, isCall := o.V.(*ssa.Call)
+				if isCall && c.Common().StaticCallee() != nil && c.Common().StaticCallee().String() == "encoding/json.Marshal" && o.Index == 0 {
+					marshals = append(marshals, c)
 					continue
 				}
-				if fn, ok := typeutil.Callee(info, call).(*types.Func); ok && fn.FullName() == "encoding/json.Marshal" && len(call.Args) == 1 {
-					// argument: &proof or proof
-					for _, pv := range varsIn(call.Args[0]) {
-						rs := assigns(pv)
-						all := len(rs) > 0
-						for _, x := range rs {
-							c2, ok := ast.Unparen(x).(*ast.CallExpr)
-							if !ok {
-								all = false
-								continue
-							}
-							fn2, ok := typeutil.Callee(info, c2).(*types.Func)
-							if !ok || fn2.Type().(*types.Signature).Recv() == nil || ps == nil || namedOf(fn2.Type().(*types.Signature).Recv().Type()) != ps {
-								all = false
-							}
-						}
-						if all {
-							okChain = true
-							detail = fmt.Sprintf("prints json.Marshal(%s) where %s is assigned only from %d proving-system call(s)", types.ExprString(call.Args[0]), pv.Name(), len(rs))
-							// pointer-receiver marshaller must be in the method set of the argument type
-							if tv, ok := info.Types[call.Args[0]]; ok {
-								if !hasMethod(tv.Type, "MarshalJSON") {
-									okChain = false
-									detail = fmt.Sprintf("json.Marshal argument of type %s does not have MarshalJSON in its method set: the default struct encoding would be printed", tv.Type)
-								}
-							}
-						}
+				if k, isConst := o.V.(*ssa.Const); isConst && k.Value != nil {
+					okPrinted = false
+					detail = "a constant is printed along with the proof: " + k.Value.String()
+					continue
+				}
+				okPrinted = false
+				detail = fmt.Sprintf("printed value has an origin other than json.Marshal: %s", o.V.String())
+			}
+		}
+		if okPrinted && len(marshals) > 0 {
+			okChain = true
+			for _, m := range marshals {
+				arg := m.Common().Args[0]
+				n := 0
+				for _, o := range ssaOrigins(arg, isPSMethod) {
+					c, isCall := o.V.(*ssa.Call)
+					if isCall && c.Common().StaticCallee() != nil && isPSMethod(c.Common().StaticCallee()) && o.Index <= 0 {
+						n++
+						continue
+					}
+					okChain = false
+					detail = fmt.Sprintf("what json.Marshal encodes at %s has an origin other than a proving-system call: %s", p.Pos(m.Pos()), o.V.String())
+				}
+				if okChain && n == 0 {
+					okChain = false
+					detail = fmt.Sprintf("what json.Marshal encodes at %s does not come from a proving-system call", p.Pos(m.Pos()))
+				}
+				if okChain {
+					detail = fmt.Sprintf("prints json.Marshal of a value whose %d origin(s) are proving-system calls", n)
+					t := arg.Type()
+					if mi, isMI := arg.(*ssa.MakeInterface); isMI {
+						t = mi.X.Type()
+					}
+					if !hasMethod(t, "MarshalJSON") {
+						okChain = false
+						detail = fmt.Sprintf("json.Marshal argument of type %s does not have MarshalJSON in its method set: the default struct encoding would be printed", t)
 					}
 				}
 			}
@@ -925,4 +885,17 @@ func appHookUnits(p *core.Program) []flow.FuncUnit {
 		})
 	}
 	return out
+}
+
+// isOsVarSSA: v is (a load of) os.Stdout.
+func isOsVarSSA(v ssa.Value) bool {
+	if mi, ok := v.(*ssa.MakeInterface); ok {
+		v = mi.X
+	}
+	if ld, ok := v.(*ssa.UnOp); ok {
+		if g, ok := ld.X.(*ssa.Global); ok && g.Pkg != nil && g.Pkg.Pkg.Path() == "os" {
+			return true
+		}
+	}
+	return false
 }
